@@ -99,6 +99,12 @@ def trigger_script(rng, case):
                        'args': {'tasks': sorted(
                            f'{p}/{n}' for n, p in rng.sample(
                                sorted(group), min(len(group), 2)))}})
+    if rng.random() < 0.25:
+        # a retained finished task together with its dependants: they must
+        # wait for its re-run, not be satisfied by its old outputs
+        sc.append({'at': rng.randint(6, 20), 'cmd': 'force_trigger_tasks',
+                   'args': {'tasks': ['@finished-group'],
+                            'flow': rng.choice([['all'], ['all'], ['1']])}})
     return sorted(sc, key=lambda a: a['at'])
 
 
